@@ -52,7 +52,7 @@ def level_term(ex, st, v):
     raise Inconclusive(f"log level of {v!r}")
 
 
-def make_hooks(funcs, items, logger):
+def make_hooks(funcs, items, logger, fresh_loads=False):
     """items: list of Result<FormatResult, anyhow::Error> values the receiver yields, then None"""
     def h(ex, st, callee, args, dty):
         c = canon(callee)
@@ -100,7 +100,7 @@ def make_hooks(funcs, items, logger):
                 return Sym(r.tags["level"], "usize")
             return NotImplemented
         return NotImplemented
-    return [h, clihooks.atomic_hook(CELLS), clihooks.context_passthrough]
+    return [h, clihooks.atomic_hook(CELLS, fresh_loads), clihooks.context_passthrough]
 
 
 def format_result(ex, kind):
